@@ -1,7 +1,7 @@
 //! C08 — scalar typing follows the core schema. Recording and replay commands.
 //!
 //! * `c08-replay` (spec -> impl): for every REPLAY line of MC_Schema, call the real scalar
-//!   resolution entry points for 5 styles x 9 tags (7 tag classes) and compare each result, for
+//!   resolution entry points for 5 styles x 10 tags (7 tag classes) and compare each result, for
 //!   exact equality, with the outcomes the specification lists in the line: the reference side
 //!   (`a`, allowed outcomes -> candidates for a violation) and the implementation-shaped side (`m`,
 //!   the prediction of YSchema -> drift). Results of different entry points for the same scalar
@@ -189,6 +189,7 @@ pub fn tag_cfgs() -> Vec<TagCfg> {
         TagCfg { class: 4, name: "!!null", tag: t(CORE, "null") },
         TagCfg { class: 5, name: "!!str", tag: t(CORE, "str") },
         TagCfg { class: 6, name: "!int", tag: t("!", "int") },
+        TagCfg { class: 6, name: "!", tag: t("", "!") },
         TagCfg { class: 6, name: "!!binary", tag: t(CORE, "binary") },
         TagCfg { class: 6, name: "!<tag:example.com,2000:float>", tag: t("tag:example.com,2000:", "float") },
     ]
@@ -528,7 +529,7 @@ pub fn boundary_texts(seed: u64, thorough: bool) -> Vec<(String, String)> {
 /// tag class, as sequence entries, mapping values and mapping keys.
 pub fn typed_family(seed: u64) -> Vec<(String, String)> {
     let mut out = vec![];
-    let tags = ["", "!!int ", "!!float ", "!!bool ", "!!null ", "!!str ", "!local ", "!!binary "];
+    let tags = ["", "!!int ", "!!float ", "!!bool ", "!!null ", "!!str ", "!local ", "!!binary ", "! "];
     let mut rng = Rng::new(seed ^ 0xc07);
     for (i, (o, t)) in boundary_texts(seed, false).into_iter().enumerate() {
         if t.is_empty() || t.chars().any(|c| c == '\n' || c == '\'' || c == '"' || c == '\\' || !c.is_ascii()) || t.len() > 48 {
